@@ -12,11 +12,15 @@ CONSTANTS
   ProbeNs <- GProbes
   ProbeUids <- GUids
   MaxOld = 3
+  Transports <- TrBoth
+  ScmpTypes <- ScmpAll
   Exhaustive = FALSE
   Biases <- BiasAll
   TickPct = 12
   ProbePct = 8
   StalePct = 30
   ExInj <- InjX
+  ScmpPct = 35
+  ExScmp <- ScmpX
 INVARIANTS Emit
 PROPERTIES StepOfSpec
